@@ -13,5 +13,6 @@ Definition ds_is_zero (z : Z) : bool := z =? 0.
 Definition ds_nat_of_z (z : Z) : nat := Z.to_nat z.
 Definition ds_z_of_nat (n : nat) : Z := Z.of_nat n.
 Definition ds_digit_nat (z : Z) : nat := Z.to_nat z.
+Definition ds_sub (a b : Z) : Z := a - b.
 Definition ds_api := (ds_zero, ds_push_digit, ds_digit, ds_pop_digit, ds_neg, ds_is_neg, ds_is_zero,
-                      ds_nat_of_z, ds_z_of_nat, ds_digit_nat).
+                      ds_nat_of_z, ds_z_of_nat, ds_digit_nat, ds_sub).
